@@ -71,7 +71,7 @@ def shards(tier, seed):
     # var/std of narrow-integer data (squares exceed the input width): eager and chunked, every engine
     for engine in ("numpy", "flox", "numbagg"):
         for func in ("var", "nanvar", "std"):
-            for dtype in ("int8", "uint8", "int16"):
+            for dtype in ("int8", "uint8", "int16", "int64"):
                 for chunked in (False, True):
                     out.append(dict(leg="intvar", engine=engine, func=func, dtype=dtype, n=b["var_n"], chunked=chunked))
     out.sort(key=lambda s: (0 if s.get("engine") in ("numba", "numbagg") else 1, 0 if s.get("chunked") else 1))
@@ -81,6 +81,14 @@ def shards(tier, seed):
 def int_alphabet(dtype):
     ii = np.iinfo(dtype)
     return (ii.max, ii.max - 1, ii.min, 1)
+
+
+def intvar_alphabet(dtype):
+    """Values whose squares exceed the width of the dtype (for int64: beyond 2**63, yet well-conditioned: spread ~3% of the mean)."""
+    if dtype == "int64":
+        return (3_000_000_000, 3_100_000_000, 2_900_000_000, 3_050_000_000)
+    ii = np.iinfo(dtype)
+    return (ii.max, ii.max - 1, ii.max - 3, ii.max // 2)
 
 
 def exact_int_reduce(func, V, lab_tuple, order):
@@ -172,7 +180,7 @@ def run_point(res, shard, lab_tuple, V, chunks=None, method=None, kwextra=None, 
     rtol = 1e-9 if isvar else 0.0
     if shard["leg"] == "intvar":
         exp, scope, present = e1.expected_table(func, V.astype("float64"), list(lab_tuple), order, **fk)
-    bad = e1.compare(obs, exp, scope, rtol=rtol, atol=(1e-6 if shard["leg"] == "intvar" else 1e-12) if isvar else 0.0)
+    bad = e1.compare(obs, exp, scope, rtol=rtol, atol=((1e-6 if V.dtype.itemsize < 8 else 1e3) if shard["leg"] == "intvar" else 1e-12) if isvar else 0.0)
     if bad is None:
         res.outcomes["ok"] += 1
         return
@@ -201,8 +209,7 @@ def run_shard(shard):
             V = space.value_matrix(int_alphabet(shard["dtype"]), m, shard["dtype"])
             variants = [None]
         elif leg == "intvar":
-            ii = np.iinfo(shard["dtype"])
-            V = space.value_matrix((ii.max, ii.max - 1, ii.max - 3, ii.max // 2), m, shard["dtype"])
+            V = space.value_matrix(intvar_alphabet(shard["dtype"]), m, shard["dtype"])
             variants = [None]
         else:
             base = space.value_matrix((0.0, 1.0, 2.0, 3.0), m, "float64")
@@ -297,8 +304,7 @@ def replay(payload):
     elif c["leg"] == "int":
         V = space.value_matrix(int_alphabet(c["dtype"]), m, c["dtype"])
     elif c["leg"] == "intvar":
-        ii = np.iinfo(c["dtype"])
-        V = space.value_matrix((ii.max, ii.max - 1, ii.max - 3, ii.max // 2), m, c["dtype"])
+        V = space.value_matrix(intvar_alphabet(c["dtype"]), m, c["dtype"])
     else:
         V = np.array([unjson_float(c["values"])], dtype="float64") if "values" in c else space.value_matrix((0.0, 1.0, 2.0, 3.0), m, "float64")
     run_point(res, shard, lt, V, chunks=tuple(c["chunks"]) if c.get("chunks") else None, method=c.get("method"), kwextra=c.get("kw"))
